@@ -31,6 +31,8 @@ def effect_key(e):
         return "store global %s.%s" % (e["module"], e["name"])
     if e["kind"] == "static-mutation":
         return "mutation of %s" % (e.get("origin"),)
+    if e["kind"] == "shared-object-store":
+        return "store %s.%s on the %s object created at import time" % (e["cls"].split(":")[1], e["name"], e["cls"].split(":")[1])
     if e["kind"] == "memo-store":
         return "memoised result of %s (one object shared by all calls with equal arguments)" % e.get("func")
     return e["kind"]
@@ -61,6 +63,11 @@ def check(prog, run):
             for e in p.events:
                 if e["kind"] in SHARED_KINDS:
                     bad.append(e)
+                if e["kind"] == "attr-store" and getattr(e.get("obj"), "import_time", False):
+                    # an attribute of an object that was created when the module was imported and lives on a class / in a
+                    # module: one object for every command (and, if it is a threading.local, one per thread -- which is state
+                    # outside the command all the same)
+                    bad.append(dict(e, kind="shared-object-store"))
                 if e["kind"] == "external-call":
                     top = e["name"].split(".")[0]
                     if top in ("time", "random", "os", "socket", "datetime", "uuid", "secrets"):
